@@ -81,9 +81,20 @@ def stepClient2 (k : Client2) (toks : List String) : Option (Client2 × String) 
   -- real-time scenario (default ticker collector): all the model says is the theorem C10.exactly_once_by_close —
   -- Close returns and every handler has been invoked exactly once
   | ["CL", "realclose", n, _, _] => some (k, s!"ret=ok invoked-once={n}/{n}")
+  -- default collector with the client's own clock: deadlines and their expiry are both counted on that clock
+  -- (C11.no_retransmit_before_deadline / the time-out clause of C10): a clock that stands still lets nothing expire
+  -- (n writes, nobody told before Close); a clock that runs ahead of wall time still lets everything expire
+  | ["CL", "realclock", n, mode] =>
+    some (k, if mode == "0" then s!"ret=ok writes={n} completed-before-close=0 invoked-once={n}/{n}"
+             else s!"ret=ok writes={n} completed-before-close={n} invoked-once={n}/{n}")
   | ["CL", "blockwrite", id] => let r := k.step (.blockWrite (hex! id)); some (r.1, "ok")
   | ["CL", "blockagent", id] => let r := k.step (.blockAgent (hex! id)); some (r.1, "ok")
   | ["CL", "tick", t] => let r := k.step (.l1 (.tick (nat! t))); some (r.1, showOuts r.2.2)
+  -- two collector calls at once: what the two report one after the other (outputs are printed sorted)
+  | ["CL", "ticks2", t1, t2] =>
+    let r1 := k.step (.l1 (.tick (nat! t1)))
+    let r2 := r1.1.step (.l1 (.tick (nat! t2)))
+    some (r2.1, showOuts (r1.2.2 ++ r2.2.2))
   | ["CL", "tick2", t] =>
     let r := k.step (.l1 (.tick (nat! t)))
     -- the script of blocking writes applies to this collector call only
